@@ -84,7 +84,13 @@ func refMatch(fs *FlowSpec, probes []*sim.ProbeRec, pkt []byte) Match {
 	if err != nil || ip == nil {
 		return Match{}
 	}
-	outerClean := ip.LenOK && ip.CsumOK && len(ip.Options)%4 == 0
+	// link-layer padding (zero bytes after the datagram, frame no longer than Ethernet's minimum
+	// payload) is not part of the datagram: such a frame is as clean as the bare datagram
+	linkPadded := ip.TotalLen >= ip.HdrLen && ip.TotalLen < len(pkt) && len(pkt) <= 46
+	for _, x := range pkt[min(ip.TotalLen, len(pkt)):] {
+		linkPadded = linkPadded && x == 0
+	}
+	outerClean := (ip.LenOK || linkPadded) && ip.CsumOK && len(ip.Options)%4 == 0
 	if (ip.Version == 6) != fs.V6 {
 		return Match{}
 	}
